@@ -1,0 +1,58 @@
+// Copyright 2017 Pilosa Corp.
+//
+// Licensed under the Apache License, Version 2.0 (the "License");
+// you may not use this file except in compliance with the License.
+// You may obtain a copy of the License at
+//
+//     http://www.apache.org/licenses/LICENSE-2.0
+//
+// Unless required by applicable law or agreed to in writing, software
+// distributed under the License is distributed on an "AS IS" BASIS,
+// WITHOUT WARRANTIES OR CONDITIONS OF ANY KIND, either express or implied.
+// See the License for the specific language governing permissions and
+// limitations under the License.
+
+//go:build verif
+// +build verif
+
+package pilosa
+
+// Export shims for the verification harness (/verif, property C08). Add-only, tag-guarded.
+
+// VerifC08SetMaxOpN sets fragment.MaxOpN on every existing fragment of the field, so that a
+// short history can end in a snapshot (operation count back to 0) right before the holder
+// closes. It returns the number of fragments visited.
+func VerifC08SetMaxOpN(h *Holder, index, field string, n int) int {
+	f := h.Field(index, field)
+	if f == nil {
+		return 0
+	}
+	visited := 0
+	for _, v := range f.views() {
+		for _, frag := range v.allFragments() {
+			frag.mu.Lock()
+			frag.MaxOpN = n
+			frag.mu.Unlock()
+			visited++
+		}
+	}
+	return visited
+}
+
+// VerifC08OpN reports, per fragment of the field, the operation count since the last
+// snapshot (what fragment.close sees).
+func VerifC08OpN(h *Holder, index, field string) []int {
+	f := h.Field(index, field)
+	if f == nil {
+		return nil
+	}
+	var out []int
+	for _, v := range f.views() {
+		for _, frag := range v.allFragments() {
+			frag.mu.Lock()
+			out = append(out, frag.opN)
+			frag.mu.Unlock()
+		}
+	}
+	return out
+}
